@@ -29,6 +29,16 @@ type c14Case struct {
 	DirFail int      `json:"dir_fail"` // index of the failing statement of the directory (-1: none)
 	SrcFail int      `json:"src_fail"` // index of the failing statement of the desired SQL schema (-1: none)
 	Objects []string `json:"objects"`  // kinds of objects the sources create: table, index, view, trigger
+	// Bad: what the failing statement is: "" a statement the engine rejects; "scan" a statement with an unclosed
+	// quote, so that the FILE holding it cannot be split into statements (the files in front of it have run)
+	Bad string `json:"bad,omitempty"`
+}
+
+func (c *c14Case) bad() string {
+	if c.Bad == "scan" {
+		return "CREATE TABLE broken (c text DEFAULT 'x);"
+	}
+	return c14Bad
 }
 
 var c14DevSetup = map[string][]string{
@@ -178,6 +188,10 @@ func c14Cases(e *Env) []c14Case {
 						cc := c
 						cc.DirFail = k
 						out = append(out, cc)
+						if !strings.HasSuffix(cmd, "-checkpoint") {
+							cc.Bad = "scan"
+							out = append(out, cc)
+						}
 					}
 				}
 				if c.usesSQLSrc() {
@@ -220,7 +234,7 @@ func runC14(e *Env) error {
 	if e.Replay == "" {
 		c14PG(e)
 	}
-	e.Res.Rule = "PostgreSQL: the real driver's Snapshot / restore functions over an in-memory stand-in of the server (catalogue queries answered from its state, DDL applied to it): dev database {empty public, no schema, public with a type, public with a table, with a table and a type, two schemas, another schema only} x replays creating {nothing, a type, a type and a table, two tables, two types, a schema with a table and a type, a schema and a type} failing at every position; SQLite: commands {migrate diff (SQL file / HCL / directory of SQL schema files as the desired state), migrate validate, migrate lint, schema apply (SQL/HCL), schema diff, schema inspect} x dev database {missing, empty, table+rows, table+index+trigger, view only, revision table only, two tables, virtual tables only (fts4 with rows / rtree)} x object kinds created by the sources {tables | tables+index+view+trigger | tables with a file that opens its own transaction (BEGIN ... COMMIT)} x failing statement at EVERY position of the replayed directory and of the desired SQL schema; dev database opened through the sqlitev:// hook (operation trace); monitors: non-empty dev => command fails, no write operation on dev, file bytes identical; empty dev => dump empty afterwards (success or failure); directory bytes unchanged (migrate diff: only a new file + atlas.sum); outcome == Lean model Atlas.Dev; non-trivial = dev database non-empty or a statement fails; distinct by case"
+	e.Res.Rule = "PostgreSQL: the real driver's Snapshot / restore functions over an in-memory stand-in of the server (catalogue queries answered from its state, DDL applied to it): dev database {empty public, no schema, public with a type, public with a table, with a table and a type, two schemas, another schema only} x replays creating {nothing, a type, a type and a table, two tables, two types, a schema with a table and a type, a schema and a type} failing at every position; SQLite: commands {migrate diff (SQL file / HCL / directory of SQL schema files as the desired state), migrate validate, migrate lint, schema apply (SQL/HCL), schema diff, schema inspect} x dev database {missing, empty, table+rows, table+index+trigger, view only, revision table only, two tables, virtual tables only (fts4 with rows / rtree)} x object kinds created by the sources {tables | tables+index+view+trigger | tables with a file that opens its own transaction (BEGIN ... COMMIT)} x failing statement at EVERY position of the replayed directory and of the desired SQL schema (a statement the engine rejects, or one with an unclosed quote: the file holding it cannot be split into statements after the files in front of it have run); dev database opened through the sqlitev:// hook (operation trace); monitors: non-empty dev => command fails, no write operation on dev, file bytes identical; empty dev => dump empty afterwards (success or failure); directory bytes unchanged (migrate diff: only a new file + atlas.sum); outcome == Lean model Atlas.Dev; non-trivial = dev database non-empty or a statement fails; distinct by case"
 	var mu sync.Mutex
 	viol := func(kind, sig, what, check string, rep any) {
 		mu.Lock()
@@ -240,7 +254,7 @@ func runC14(e *Env) error {
 			var b strings.Builder
 			for _, s := range f {
 				if k == c.DirFail {
-					b.WriteString(c14Bad + "\n")
+					b.WriteString(c.bad() + "\n")
 				}
 				b.WriteString(s + "\n")
 				k++
